@@ -336,7 +336,7 @@ func ruleS17_1(c *Ctx, id string) {
 
 func ruleS17_2(c *Ctx, id string) {
 	P, R := c.P, c.R
-	R.Rule(id, "bounds in the SimpleNFS data path: in Inode.Write count == len(data), !SumOverflows(offset,count), offset+count <= BlockSize and offset <= Size dominate the copy; in Inode.Read offset < Size and count <= Size-offset dominate the copy", 6)
+	R.Rule(id, "bounds in the SimpleNFS data path: in Inode.Write count == len(data), !SumOverflows(offset,count), offset+count <= BlockSize and offset <= Size dominate the copy; in Inode.Read offset < Size and count <= Size-offset dominate the copy; Write records Size = offset+count; Read's eof is offset+count >= Size", 8)
 	w := c.fn(id, "simple.(*Inode).Write")
 	rd := c.fn(id, "simple.(*Inode).Read")
 	sumOv := P.Func(jrnlPath + "/util.SumOverflows")
@@ -466,6 +466,18 @@ func ruleS17_2(c *Ctx, id string) {
 				}
 			}},
 		}
+		// the new size is where the write ended: Size = offset + count, stored only when that is beyond the old size
+		for _, sc := range scopesOf(w) {
+			for _, fw := range FieldWrites(sc.Fn) {
+				if fw.Field != "Size" || fw.Type.Obj().Name() != "Inode" {
+					continue
+				}
+				form := sym(&symCtx{recv: w.Params[0]}, fw.Val, sc.S, 0)
+				want1 := fmt.Sprintf("(+ param:%s param:%s)", w.Params[3].Name(), w.Params[2].Name())
+				want2 := fmt.Sprintf("(+ param:%s param:%s)", w.Params[2].Name(), w.Params[3].Name())
+				R.Check(form == want1 || form == want2, id, "simple.Write|new size is offset+count", P.Pos(fw.Instr.Pos()), "the size recorded after a growing write is offset + count", form, "the size stored is "+form+": a write that straddles the old end makes the file longer than what was written (bytes nobody wrote become readable, holes in the phantom range are accepted)")
+			}
+		}
 		for _, ck := range checks {
 			R.Check(guardedByX(w, cp.Block(), ck.m, Subst{}, 0), id, "simple.Write|"+ck.name, P.Pos(cp.Pos()), "the copy into the data block is dominated by "+ck.name, "guard dominates", "without this bound a request writes outside the file's block, creates a hole, or indexes out of range")
 		}
@@ -519,6 +531,76 @@ func ruleS17_2(c *Ctx, id string) {
 					}
 				}
 			}
+		}
+		// end-of-file is told by where the read ended: offset + <bytes copied> >= Size (or the negation of <)
+		{
+			okEof, nE := true, 0
+			var clampPhi ssa.Value
+			for _, sc := range scopesOf(rd) {
+				for _, b := range sc.Fn.Blocks {
+					for _, in := range b.Instrs {
+						if phi, ok := in.(*ssa.Phi); ok && clampSelected(sc, phi, rd.Params[3], offset, rd.Params[0]) {
+							clampPhi = phi
+						}
+					}
+				}
+			}
+			isEnd := func(v ssa.Value) bool { // offset + count (clamped)
+				bo, ok := stripConv(v).(*ssa.BinOp)
+				if !ok || bo.Op != token.ADD {
+					return false
+				}
+				x, y := stripConv(bo.X), stripConv(bo.Y)
+				return (x == offset && y == clampPhi) || (y == offset && x == clampPhi)
+			}
+			isSize := func(v ssa.Value) bool {
+				_, fl, base, _ := loadedField(v)
+				return fl == "Size" && base == ssa.Value(rd.Params[0])
+			}
+			var judge func(v ssa.Value, neg bool, d int) bool
+			judge = func(v ssa.Value, neg bool, d int) bool {
+				if d > 4 {
+					return false
+				}
+				switch x := v.(type) {
+				case *ssa.Const:
+					bv, isb := constBool(x)
+					return isb && bv != neg // a constant true: the "offset >= Size" early exit (checked by the bound)
+				case *ssa.UnOp:
+					if x.Op == token.NOT {
+						return judge(x.X, !neg, d+1)
+					}
+				case *ssa.Phi:
+					for _, e := range x.Edges {
+						if !judge(e, neg, d+1) {
+							return false
+						}
+					}
+					return true
+				case *ssa.BinOp:
+					op, a, b := x.Op, x.X, x.Y
+					if isSize(a) && isEnd(b) {
+						op, a, b = flipOp(op), b, a
+					}
+					if !isEnd(a) || !isSize(b) {
+						return false
+					}
+					if neg {
+						op = negOp(op)
+					}
+					return op == token.GEQ
+				}
+				return false
+			}
+			for _, b := range rd.Blocks {
+				if r, ok := b.Instrs[len(b.Instrs)-1].(*ssa.Return); ok && len(r.Results) == 2 {
+					nE++
+					if !judge(r.Results[1], false, 0) {
+						okEof = false
+					}
+				}
+			}
+			R.Check(okEof && nE > 0 && clampPhi != nil, id, "simple.Read|eof is offset+count >= Size", P.Pos(rd.Pos()), "the end-of-file flag is true exactly when the read reached the file's size: offset + <bytes copied> >= Size (or the constant true of the 'offset >= Size' exit)", "form of every returned flag", "the eof flag is computed from something else (e.g. whether the count was cut short): a read that ends exactly at the end of the file reports that more follows, or one that stops inside reports the end")
 		}
 		R.Check(clamp, id, "simple.Read|count clamped to Size-offset", P.Pos(cr.Pos()), "the number of bytes copied is min(count, Size-offset): the smaller one is chosen by comparing count with Size-offset", "clamp phi selected by count > Size-offset", "a large count reads beyond the file's size (other bytes of the block, or out of range)")
 	}
